@@ -9,7 +9,7 @@ if os.path.exists(dst):
 os.makedirs(dst)
 for f in ['patch.diff', 'demo_test.go', 'notes.md']:
     shutil.copy(os.path.join(src, f), os.path.join(dst, f))
-meta = dict(id=name, author='independent sub-agent, second wave (given only the property text and a scratch worktree; asked for less direct mechanisms)', breaks=[prop],
+meta = dict(id=name, author='independent sub-agent, later wave (given only the property text and a scratch worktree; asked for less direct mechanisms)', breaks=[prop],
             needs_to_manifest=needs,
             confirmed='tools/verify_seed.sh: patch applies to /repo HEAD, builds (also with -tags verif), unedited suite passes with it, demo fails with it and passes without it',
             results={})
